@@ -105,7 +105,7 @@ fn main() {
         report(&ctx, &x, "replay", v, &mut st);
         finish(&ctx, Coverage::default());
     }
-    let sigma9: Vec<&str> = vec!["0", "1", "a", "-", ".", "+", "v", "٣", "é"];
+    let sigma9: Vec<&str> = vec!["0", "1", "a", "-", ".", "+", "v", "V", "٣", "é"];
     let (la, lcheck, lb) = if ctx.quick() { (7, 5, 9) } else { (9, 6, 11) };
 
     // (a) every string over Sigma9 up to length la
@@ -120,7 +120,7 @@ fn main() {
     let lang = accepted_language(&['0', '1', '2', 'a', '-', '.', '+', 'v'], lb);
     // white-space symbols are edit symbols too (SemVer has none; a trimming front end would accept them): edits that
     // introduce one are also put through the check command
-    let edit_syms: Vec<char> = vec!['0', '1', 'a', 'A', '9', '-', '.', '+', 'v', '٣', 'é', ' ', '\n', '\t', '\r', '\u{a0}'];
+    let edit_syms: Vec<char> = vec!['0', '1', 'a', 'A', '9', '-', '.', '+', 'v', 'V', '٣', 'é', ' ', '\n', '\t', '\r', '\u{a0}'];
     use rayon::prelude::*;
     let sb = lang
         .par_iter()
